@@ -54,21 +54,38 @@ type synthRepo struct {
 	gene    *block.Block
 	head    *block.Block
 	have    map[uint32]bool
-	version uint32
+	version uint32 // next minor version of the index trie for this head
+	first   bool   // no index committed yet in this case: start from the genesis index
 	repo    *chain.Repository
 }
 
+// one database holds the genesis and every crafted head: index tries of different cases live under different
+// versions (major = head number, minor = a per-head counter), summaries under the head's id
+var synthBase struct {
+	db     *muxdb.MuxDB
+	gene   *block.Block
+	minors map[uint32]uint32
+	cases  int
+}
+
 func newSynthRepo(head uint32) *synthRepo {
-	db := muxdb.NewMem()
-	gene, _, _, err := sharedGenesis().Build(state.NewStater(db))
-	if err != nil {
-		hx.Fatal("synth genesis: %v", err)
+	if synthBase.db == nil || synthBase.cases > 20000 {
+		if synthBase.db != nil {
+			synthBase.db.Close()
+		}
+		db := muxdb.NewMem()
+		gene, _, _, err := sharedGenesis().Build(state.NewStater(db))
+		if err != nil {
+			hx.Fatal("synth genesis: %v", err)
+		}
+		if _, err := chain.NewRepository(db, gene); err != nil {
+			hx.Fatal("synth repo: %v", err)
+		}
+		synthBase.db, synthBase.gene, synthBase.minors, synthBase.cases = db, gene, map[uint32]uint32{}, 0
 	}
-	if _, err := chain.NewRepository(db, gene); err != nil {
-		hx.Fatal("synth repo: %v", err)
-	}
-	s := &synthRepo{db: db, gene: gene, have: map[uint32]bool{}}
-	s.head = new(block.Builder).ParentID(synthID('L', head-1)).Timestamp(gene.Header().Timestamp() + 10).TotalScore(uint64(head)).Build()
+	synthBase.cases++
+	s := &synthRepo{db: synthBase.db, gene: synthBase.gene, have: map[uint32]bool{}, version: synthBase.minors[head], first: true}
+	s.head = new(block.Builder).ParentID(synthID('L', head-1)).Timestamp(s.gene.Header().Timestamp() + 10).TotalScore(uint64(head)).Build()
 	return s
 }
 
@@ -87,9 +104,10 @@ func (s *synthRepo) localID(n uint32) thor.Bytes32 {
 func (s *synthRepo) publish(want []uint32) {
 	headNum := s.head.Header().Number()
 	root := trie.Root{Hash: thor.BytesToBytes32([]byte{1}), Ver: trie.Version{Major: 0, Minor: 0}}
-	if s.version > 0 {
+	if !s.first {
 		root.Ver = trie.Version{Major: headNum, Minor: s.version - 1}
 	}
+	s.first = false
 	t := s.db.NewTrie(muxdb.IndexTrieName, root)
 	for _, n := range append(want, headNum) {
 		if n == 0 || s.have[n] || n > headNum {
@@ -117,6 +135,7 @@ func (s *synthRepo) publish(want []uint32) {
 		hx.Fatal("synth props: %v", err)
 	}
 	s.version++
+	synthBase.minors[headNum] = s.version
 	s.repo, err = chain.NewRepository(s.db, s.gene)
 	if err != nil {
 		hx.Fatal("synth reopen: %v", err)
@@ -334,7 +353,7 @@ func partD(ctx *hx.Ctx, rnd *hx.Rand) {
 			doSynth(ctx, &SynthCase{Kind: "synth", Head: head, L: l})
 		}
 	}
-	n := ctx.Scale(1500, 60000)
+	n := ctx.Scale(1500, 40000)
 	for i := 0; i < n; i++ {
 		head := genHead(rnd)
 		if head == 0 || head >= 1<<31 {
